@@ -39,6 +39,22 @@ def strip_comments(src):
     return src
 
 
+class build_lock:
+    """serialises the build steps (lake, cargo) of checks that run at the same time: they share lean/.lake and the
+    harness target directory"""
+    def __enter__(self):
+        import fcntl
+        os.makedirs(WORK, exist_ok=True)
+        self.f = open(os.path.join(WORK, "build.lock"), "w")
+        fcntl.flock(self.f, fcntl.LOCK_EX)
+        return self
+
+    def __exit__(self, *a):
+        import fcntl
+        fcntl.flock(self.f, fcntl.LOCK_UN)
+        self.f.close()
+
+
 def scan_sources():
     hits = []
     for f in glob.glob(os.path.join(LEAN, "**", "*.lean"), recursive=True):
@@ -51,7 +67,7 @@ def scan_sources():
     return hits
 
 
-def lean_obligations(prop):
+def lean_obligations(prop, recheck=False):
     """build the property's theorem module and the driver, then re-elaborate the property file to get
     the axioms of every obligation. Returns dict(ok, obligations=[{name, axioms, ok}], log)"""
     mod = f"MemcVerif.Props.{prop}"
@@ -60,14 +76,22 @@ def lean_obligations(prop):
     if not os.path.exists(path):
         res["log"] = f"{path} missing"
         return res
-    rc, out = sh(["lake", "build", "driver"], cwd=LEAN, timeout=3000)
-    res["driver_ok"] = rc == 0
-    if rc != 0:
-        res["log"] += out[-4000:]
-    rc, out = sh(["lake", "build", mod], cwd=LEAN, timeout=3000)
-    res["build_ok"] = rc == 0
-    if rc != 0:
-        res["log"] += out[-6000:]
+    with build_lock():
+        rc, out = sh(["lake", "build", "driver"], cwd=LEAN, timeout=3000)
+        res["driver_ok"] = rc == 0
+        if rc != 0:
+            res["log"] += out[-4000:]
+        rc, out = sh(["lake", "build", mod], cwd=LEAN, timeout=3000)
+        res["build_ok"] = rc == 0
+        if rc != 0:
+            res["log"] += out[-6000:]
+        if rc == 0 and recheck:
+            # independent re-check of the compiled module by the toolchain's kernel re-checker
+            rc3, out3 = sh(["lake", "env", "leanchecker", mod], cwd=LEAN, timeout=3000)
+            res["leanchecker"] = "ok" if rc3 == 0 else "FAILED"
+            if rc3 != 0:
+                res["build_ok"] = False
+                res["log"] += "leanchecker: " + out3[-3000:]
     rc2, out2 = sh(["lake", "env", "lean", path], cwd=LEAN, timeout=3000)
     obligations = []
     for m in re.finditer(r"'([^']+)' depends on axioms: \[([^\]]*)\]", out2.replace("\n", " ")):
@@ -90,7 +114,8 @@ def lean_obligations(prop):
 
 
 def harness_build():
-    rc, out = sh(["cargo", "build", "--offline"], cwd=HARNESS, timeout=3000)
+    with build_lock():
+        rc, out = sh(["cargo", "build", "--offline"], cwd=HARNESS, timeout=3000)
     return rc == 0, out
 
 
@@ -99,7 +124,8 @@ MEMCRSD_TARGET = os.path.join(WORK, "memcrsd-target")
 
 def memcrsd_build():
     """the real server binary, built from /repo's working tree into a scratch target directory"""
-    rc, out = sh(["cargo", "build", "--manifest-path", "/repo/memcrs/Cargo.toml", "--bin", "memcrsd", "--target-dir", MEMCRSD_TARGET, "--offline"], timeout=3000)
+    with build_lock():
+        rc, out = sh(["cargo", "build", "--manifest-path", "/repo/memcrs/Cargo.toml", "--bin", "memcrsd", "--target-dir", MEMCRSD_TARGET, "--offline"], timeout=3000)
     return rc == 0, out
 
 
